@@ -10,5 +10,6 @@ import Refine.Lemmas.ScalarReal
 import Refine.Lemmas.Comm
 import Refine.Lemmas.CommReduce
 import Refine.Lemmas.CommSelect
+import Refine.Lemmas.CommP2P
 import Refine.Props.C15
 import Refine.Props.C17
